@@ -128,6 +128,10 @@ enum Consumer {
     ForEach,
     Count,
     Any,
+    /// `fold` into per-piece vectors, `reduce` by concatenation (a consumer whose folder carries state across tables)
+    FoldReduce,
+    /// `max` (a pure reduction: every piece's result must reach the root)
+    Max,
 }
 
 struct ViewSet {
@@ -161,6 +165,19 @@ macro_rules! viewset {
                     }
                     Consumer::Count => (vec![], it.count() as u64),
                     Consumer::Any => (vec![], it.any(|_| true) as u64),
+                    Consumer::FoldReduce => (
+                        it.map(|$pat| $row)
+                            .fold(Vec::new, |mut v: Vec<Row>, r| {
+                                v.push(r);
+                                v
+                            })
+                            .reduce(Vec::new, |mut a, mut b| {
+                                a.append(&mut b);
+                                a
+                            }),
+                        0,
+                    ),
+                    Consumer::Max => (it.map(|$pat| $row).max().into_iter().collect(), 0),
                 }
             },
         }
@@ -260,7 +277,7 @@ fn main() {
         let mut max_trees = 0u64;
         for (si, spec) in all_specs.iter().enumerate() {
             for v in &vs {
-                for consumer in [Consumer::Collect, Consumer::ForEach, Consumer::Count, Consumer::Any] {
+                for consumer in [Consumer::Collect, Consumer::ForEach, Consumer::Count, Consumer::Any, Consumer::FoldReduce, Consumer::Max] {
                     if let Some((wi, vn, _, cn)) = &only {
                         if *wi != si || vn != v.name || *cn != format!("{:?}", consumer) {
                             continue;
@@ -314,7 +331,7 @@ fn main() {
                             }
                         };
                         match consumer {
-                            Consumer::Collect | Consumer::ForEach => {
+                            Consumer::Collect | Consumer::ForEach | Consumer::FoldReduce => {
                                 let ordered_same = consumer == Consumer::Collect && rows.iter().map(|r| (&r.id, &r.vals)).eq(arena_free_sorted(&seq_rows, &rows).iter().map(|r| (&r.id, &r.vals)));
                                 let _ = ordered_same;
                                 let mut r2: Vec<Row> = rows.clone();
@@ -337,6 +354,18 @@ fn main() {
                             Consumer::Count => {
                                 if scalar as usize != seq_rows.len() {
                                     fail("par-count-differs", format!("views {} world {:?} answers {:?}: {} vs {}", v.name, spec.tables, trace, scalar, seq_rows.len()));
+                                }
+                            }
+                            Consumer::Max => {
+                                // the rows' own order: (identifier, values) first; addresses differ between the two worlds
+                                let strip = |r: &Row| (r.id, r.vals.clone());
+                                let want = seq_rows.iter().map(strip).max();
+                                let got = rows.iter().map(strip).max();
+                                if rows.len() > 1 || got != want {
+                                    fail("par-max-differs", format!("views {} world {:?} answers {:?}: {:?} vs {:?}", v.name, spec.tables, trace, got, want));
+                                }
+                                if after != seq_after {
+                                    fail("par-update-outcome-differs-from-sequential", format!("views {} world {:?} answers {:?}", v.name, spec.tables, trace));
                                 }
                             }
                             Consumer::Any => {
